@@ -316,6 +316,9 @@ def body(case, ctx: Ctx):
         if prev_cash is not None or delta != 0:
             ctx.check(cash == (prev_cash or Decimal(0)) + delta, "cash.unexplained", lambda: f"bar {ts}: option cash {prev_cash} -> {cash}, records explain {delta}", case)
         prev_cash = cash
+    # the account history has exactly one row per bar that was run (also when the price feed is finer than the bar grid)
+    hist = list(a.account_status_df.index)
+    ctx.check(hist == bars, "history.index", lambda: f"{len(bars)} bars were run ({bars[:3]}..) but the account history has {len(hist)} rows ({hist[:4]}..)", case)
     now = {k: (v["asks"], v["bids"]) for k, v in m.data.iterrows()}
     ctx.check(now == pristine, "data.mutated", lambda: "the run changed the supplied option data", case)
     ctx.case(case, nontrivial, sorted(labels))
